@@ -162,6 +162,10 @@ def exec_case(case, real=False):
         cls.append("inputs-share-a-tile")
     if any(r[4] for r in case["rects"]):
         cls.append("nan-border")
+    if case.get("cd"):
+        cls.append("CD-spelling")
+    if case.get("bottom_up_each") and len(set(case["bottom_up_each"])) == 2:
+        cls.append("inputs-of-both-row-orders")
     return Outcome(classes=cls, nontrivial=len(case["rects"]) >= 2 and share, info={"mosaic": [int(exp.shape[1]), int(exp.shape[0])]})
 
 
@@ -171,7 +175,7 @@ def exec_real(case):
 
 @st.composite
 def strat(draw, tier):
-    case = draw(mtgen.mosaic_cases(tier, max_size=700 if tier == "quick" else 900, allow_inf=True))
+    case = draw(mtgen.mosaic_cases(tier, max_size=700 if tier == "quick" else 900, allow_inf=True, allow_mixed=True))
     if case["k"] > 1:
         case["sched"] = draw(scen.schedules(max_size=100))
     return case
@@ -179,7 +183,7 @@ def strat(draw, tier):
 
 @st.composite
 def strat_real(draw, tier):
-    case = draw(mtgen.mosaic_cases(tier, max_size=600, allow_inf=True))
+    case = draw(mtgen.mosaic_cases(tier, max_size=600, allow_inf=True, allow_mixed=True))
     case["k"] = draw(st.sampled_from([2, 3, 4]))
     return case
 
